@@ -41,6 +41,9 @@ type Job struct {
 	ProbeOffset int      `json:"probeOffset,omitempty"`
 	// Fresh: run this job in a worker process that has not executed any job yet.
 	Fresh bool `json:"fresh,omitempty"`
+	// ParallelOps: the accessors named in Ops are called at the same time from one goroutine each, on the one freshly built catalog
+	// (so the first use of every lazily built part is concurrent), with value-determined delays at the library's yield points.
+	ParallelOps bool `json:"parallel_ops,omitempty"`
 	// Conc describes a concurrent job (C18).
 	Conc *ConcJob `json:"conc,omitempty"`
 	// Seq: operation sequences for C16; each is run on a fresh build of the project.
